@@ -370,9 +370,10 @@ def gen_modspec(rng, name, big):
     if base == 'Readable' and rng.random() < 0.5:
         layers[rng.choice(full)]['params'].append({'attr': 'value', 'override': True, 'has_write': False, 'has_read': True})
     # hooks: on parameters of any layer, defined in that layer or any layer above (hooks of several classes chain)
+    limited_heads = {q['limit'] for l in layers for q in l['params'] if q.get('limit')}
     for layer, p in all_params:
         for hl in range(layer, nlayers):
-            if rng.random() < (0.3 if nlayers == 2 else 0.22):
+            if rng.random() < (0.3 if nlayers == 2 or p['attr'] in limited_heads else 0.2):
                 layers[hl]['hooks'].append({'attr': p['attr'], 'kind': rng.choice(HOOK_KINDS)})
     # commands
     cnames = ['c1', 'c2', 'stop', 'reset', 'go']
@@ -412,6 +413,19 @@ def gen_modspec(rng, name, big):
             cfg[p['attr']] = {'readonly': not p['readonly']}
         elif r < 0.26 and p['export'] is False:
             cfg[p['attr']] = {'export': True}
+    # the configuration gives limit parameters their initial value (the usual way limits are set in the field): already
+    # the first request meets limits narrower than the range of the datatype
+    heads = {p['attr']: p['dt'] for _, p in all_params}
+    for layer in layers:
+        for p in layer['params']:
+            dts = heads.get(p.get('limit'))
+            if dts is None or p.get('redeclared') or rng.random() >= 0.3:
+                continue
+
+            def pyval():
+                w = gen_valid(rng, dts)
+                return dts[1] * w if dts[0] == 'scaled' else w
+            cfg[p['attr']] = {'value': sorted([pyval(), pyval()]) if p['attr'].endswith('_limits') else pyval()}
     # feature mixins: 'FeatA' = direct Feature subclass (reported), 'FeatSub' = subclass of one (itself not a feature)
     feats = rng.choice([[], [], [], ['FeatA'], ['FeatB', 'FeatA'], ['FeatSub'], ['FeatSub', 'FeatB']])
     return {'name': name, 'base': base, 'exported': rng.random() < 0.8, 'layers': layers, 'cfg': cfg, 'features': feats}
